@@ -101,6 +101,12 @@ CLAIMED["C07"] = dict(
    text="Generated tables (all listed table and column options, multi-line and wide-character cells, nested panels) are rendered at widths from the structural minimum; because every cell character is unique, the check decides exactly whether body lines form a rectangle of the right width, rows keep to their own lines in insertion order, and every character of a fold column appears once, in order, inside a cell range disjoint from the other columns; title/caption may only surround the body.",
    note="ratio >= 1, max_width >= 2, table width <= available width; losses in columns the width solver allotted less than their structural need are known findings F1/F4 (classified with the table's own column-width calculation).",
    ref="5 C07")
+CLAIMED["C08"] = dict(
+   technique="Hypothesis property tests: differential between a frame and its child rendered alone at the inner width; position predicates for rules, bars, columns (unique tokens) and trees (unique labels)",
+   level="exploration",
+   text="For generated Panel/Padding/Align/Constrain/Styled frames the child is rendered alone at the inner width and must re-appear verbatim at the right offset inside an exact rectangle with exactly the requested border and padding cells (utf-8, ascii-only and legacy-windows consoles); rules must be one line of exactly W cells, bars exactly/at most their target; Columns must show every unique token once in the documented reading order and Trees every visible label once in depth-first order behind a prefix of exactly 4 cells per level.",
+   note="Only the outermost frame of a case is judged; frame style none; inner widths below the child's structural minimum are outside the domain; Align uses the child's measured maximum (C09's subject).",
+   ref="5 C08")
 NOT_YET = {}
 props = [json.loads(l) for l in open(os.path.join(V, "properties.jsonl"))]
 checks = []
